@@ -4,7 +4,7 @@
 From Coq Require Import List NArith Bool.
 From SV Require Import lib.Bytes model.Graph model.GraphInv gen.GenCrash model.Crash proofs.CrashProofs
   proofs.CrashReach proofs.CrashStarted model.CrashStartup proofs.CrashStartupGen proofs.CrashStartupProofs.
-From SV Require Import model.CrashHist proofs.CrashHistProofs.
+From SV Require Import model.CrashHist proofs.CrashHistProofs proofs.CrashEnvGuard.
 From SV Require gen.GenCrashSchema model.CrashSchema proofs.CrashSchemaProofs.
 From SV Require model.Engine proofs.EngineProofs model.CrashEngine proofs.CrashEngineProofs
   proofs.EngineAmendProofs proofs.EngineAmendFull proofs.CrashEngineAmend.
@@ -308,6 +308,12 @@ Theorem C05_startup_source_structure :
   rescan_nglobs_blocks = [[1]; [2]] /\ persist_nglob_statements = [1; 2; 3] /\
   rescan_files_blocks = [[1]] /\ run_hash_job_transactions = [1].
 Proof. exact startup_source_structure. Qed.
+
+(* the comparison made in memory between the two transactions of rescan_env_vars, translated from the
+   loop body with its path conditions (`if equal: continue` and `if differs: ...` are the same): a
+   row's step is marked, and the row's value stored, exactly when the value now differs from it *)
+Theorem C05_startup_env_comparison : rescan_env_vars_guards = [1; 1].
+Proof. exact env_guards_eq. Qed.
 
 (* the two transactions of reset_interrupted_steps compose to C09's reset_interrupted *)
 Theorem C05_startup_reset_is_two_transactions :
